@@ -440,8 +440,21 @@ pub fn run(r: &Report) {
         add(r, "pairs:cross-instance:2x81x81", sweep_cross(r, &ux, 81));
         let u27 = Uni::new("27 footprints (node,edge,att in none/R/W), instance 0", single_instance(0, 3, 1));
         add(r, "triples:27^3", sweep_triples(r, &u27, true));
-        // measured cheap enough for quick as well: all single-instance triples
-        add(r, "triples:81^3", sweep_triples(r, &u81, false));
+        // port-bearing triples: node x port sub-universe (9 footprints) crossed with the 27
+        let u36 = Uni::new(
+            "36 footprints (node in none/R/W, edge in none/W, att in none/R, port in none/in/out), instance 0",
+            single_instance(0, 3, 3)
+                .into_iter()
+                .filter(|f| {
+                    f.claims.iter().all(|c| match c.class {
+                        Class::Node => true,
+                        Class::Edge => c.w,
+                        Class::Att => c.r,
+                    })
+                })
+                .collect(),
+        );
+        add(r, "triples:36^3(with ports)", sweep_triples(r, &u36, true));
     } else {
         let u2 = Uni::new("6561 footprints over two instances", two_instances(3, 3));
         add(r, "pairs:two-instances:6561x6561", sweep_pairs(r, &u2, false));
